@@ -4,6 +4,7 @@ import (
 	"fmt"
 
 	"github.com/LemoFoundationLtd/lemochain-core/common"
+	"github.com/LemoFoundationLtd/lemochain-core/common/crypto"
 )
 
 // ---- the fixed universe: abstract names <-> real addresses
@@ -17,7 +18,20 @@ var (
 	contractNames = []string{"A", "B", "C"}
 	allNames      = []string{"U", "A", "B", "C"}
 	slotNames     = []string{"s1", "s2"}
+	// the one address every account of the universe can create in the transaction (New(a) of the spec)
+	createdNames = []string{"nU", "nA", "nB", "nC"}
+	obsNames     = []string{"U", "A", "B", "C", "nU", "nA", "nB", "nC"}
+	codeNames    = []string{"A", "B", "C", "nU", "nA", "nB", "nC"}
+	// the modexp precompile: a read-only call to it with an absurd length header burns the gas passed on and touches
+	// nothing (the gas burner of the "nodeposit" init code)
+	addrP5 = common.BytesToAddress([]byte{5})
 )
+
+func init() {
+	for _, n := range allNames {
+		addrOf["n"+n] = crypto.CreateContractAddress(addrOf[n], txHash)
+	}
+}
 
 func slotKey(name string) common.Hash {
 	switch name {
@@ -35,6 +49,9 @@ func nameOfAddr(a common.Address) string {
 			return n
 		}
 	}
+	if a == addrP5 {
+		return "P5"
+	}
 	return a.Hex()
 }
 
@@ -49,22 +66,22 @@ func nameOfSlot(h common.Hash) string {
 
 // Item is one step of a frame's program.
 type Item struct {
-	Op    string // "sstore" | "log" | "call"
+	Op    string // "sstore" | "log" | "call" (any frame kind, also a creation) | "collide" (a creation that is refused)
 	Slot  string
 	Val   int
 	Child *Node
 }
 
-// Node is one call frame of a program tree: how it is entered, what it does, how it ends.
+// Node is one frame of a program tree: how it is entered, what it does, how it ends.
 type Node struct {
 	ID     int
-	Kind   string // call | callcode | delegatecall | staticcall
-	To     string // name of the account whose code runs
-	Val    int    // value sent (call, callcode)
+	Kind   string // call | callcode | delegatecall | staticcall | create
+	To     string // name of the account whose code runs (create: the new address)
+	Val    int    // value sent (call, callcode, create)
 	Items  []*Item
-	End    string // ok | revert | fail | suicide      ("" while under construction)
+	End    string // ok | revert | fail | suicide | toobig | nodeposit (the last two: creation frames)   ("" while under construction)
 	Benef  string // beneficiary of a suicide
-	Flavor string // concrete way to fail: invalid | oog | underflow | badjump | wp_sstore | wp_log | wp_suicide | wp_call
+	Flavor string // concrete way to fail: invalid | oog | underflow | badjump | wp_sstore | wp_log | wp_suicide | wp_call | wp_create
 	gas    uint64 // gas the parent asks for (ample plan)
 }
 
@@ -87,26 +104,70 @@ func (n *Node) walk(f func(*Node)) {
 	}
 }
 
-// plan computes an ample gas budget bottom-up: every frame is asked for explicitly (PUSH3 gas) so that a child
-// that burns all its gas cannot starve its parent, and the 63/64 cap never bites in the ample run.
-func (n *Node) plan() uint64 {
+// the platform's rules for the code deposit (params.MaxCodeSize, params.CreateDataGas)
+const (
+	maxCodeSize   = 24576
+	createDataGas = 200
+	noDepositLen  = 1000   // code length the "nodeposit" init code returns ...
+	noDepositGas  = 100000 // ... after it has burnt its gas down below this: 1000 * 200 > 100000
+)
+
+func memCost(bytes uint64) uint64 {
+	w := bytes/32 + 1
+	return 3*w + w*w/512
+}
+
+// burns: a creation frame that (in the ample run) ends with all the gas passed on gone - and CREATE passes on all but 1/64
+func (n *Node) burns() bool {
+	return n.Kind == "create" && (n.End == "fail" || n.End == "toobig" || n.End == "nodeposit")
+}
+
+// plan computes an ample gas budget bottom-up: every called frame is asked for explicitly (PUSH4 gas) so that a child
+// that burns all its gas cannot starve its parent, and the 63/64 cap never bites in the ample run.  CREATE takes no gas
+// operand: the child gets all but 1/64 of what the parent holds, so the parent must hold 64 times what it still needs
+// afterwards when the child burns everything.  L = length of the code image (the deposit of a creation that succeeds).
+func (n *Node) plan(L uint64) uint64 {
 	need := uint64(3000)
-	for _, it := range n.Items {
+	switch n.End {
+	case "suicide":
+		need += 40000
+	case "fail":
+		need += 40000 // the write-protection flavours push call arguments first
+	case "ok":
+		if n.Kind == "create" && n.Flavor == "max" {
+			need += createDataGas*maxCodeSize + 2*memCost(maxCodeSize) + 500
+		} else if n.Kind == "create" {
+			need += createDataGas*L + 2*memCost(L) + 500
+		}
+	case "toobig":
+		need += 2*memCost(maxCodeSize+1) + 200
+	case "nodeposit":
+		need += 8000
+	}
+	for i := len(n.Items) - 1; i >= 0; i-- {
+		it := n.Items[i]
 		switch it.Op {
 		case "sstore":
 			need += 20100
 		case "log":
 			need += 500
+		case "collide":
+			need = 64*need + 64 + 33000 + 2*memCost(L) + 500
 		case "call":
-			cg := it.Child.plan()
-			need += 40000 + cg + cg/32 + 64
+			c := it.Child
+			cg := c.plan(L)
+			if c.Kind == "create" {
+				a := cg + cg/63 + 64 + need
+				if c.burns() {
+					if b := 64*need + 64; b > a {
+						a = b
+					}
+				}
+				need = a + 33000 + 2*memCost(L) + 500
+			} else {
+				need += 40000 + cg + cg/32 + 64
+			}
 		}
-	}
-	if n.End == "suicide" {
-		need += 40000
-	}
-	if n.End == "fail" {
-		need += 40000 // the write-protection flavours push call arguments first
 	}
 	n.gas = need
 	return need
@@ -126,6 +187,14 @@ func callOp(kind string) byte {
 	panic("unknown call kind " + kind)
 }
 
+// push4 emits PUSH4 v: gas operands have a fixed width so that the length of the image does not depend on the plan.
+func (a *asm) push4(v uint64) *asm {
+	if v > 0xffffffff {
+		v = 0xffffffff
+	}
+	return a.pushBytes([]byte{byte(v >> 24), byte(v >> 16), byte(v >> 8), byte(v)})
+}
+
 // emitCall: the child's node id travels as one byte of call data.
 func emitCall(a *asm, kind string, to common.Address, val int, id int, gas uint64) {
 	a.push(uint64(id)).push(0).op(opMSTORE8) // mem[0] = id
@@ -134,13 +203,40 @@ func emitCall(a *asm, kind string, to common.Address, val int, id int, gas uint6
 		a.push(uint64(val))
 	}
 	a.pushBytes(to.Bytes())
-	if gas == 0 {
-		a.op(opGAS)
-	} else {
-		a.push(gas)
-	}
+	a.push4(gas)
 	a.op(callOp(kind))
 	a.op(opPOP) // the success flag (the tracer reads it from the stack of this POP)
+}
+
+// The code image starts with a header of 6 bytes that puts the node id on the stack: the RUNTIME header reads it from
+// the call data, the INIT header (a creation has no call data) pushes it.
+const headerLen = 6
+
+func runtimeHeader() []byte { return []byte{opPUSH1, 0, opCALLDATALOAD, opPUSH1, 0, opBYTE} }
+func initHeader(id int) []byte {
+	return []byte{opPUSH1, byte(id), opJUMPDEST, opJUMPDEST, opJUMPDEST, opJUMPDEST}
+}
+
+// initCode: the image as init code of the creation node id
+func initCode(image []byte, id int) []byte {
+	out := append([]byte(nil), image...)
+	copy(out, initHeader(id))
+	return out
+}
+
+// emitImageToMemory: mem[0..CODESIZE) = the running code with the given header
+func emitImageToMemory(a *asm, header []byte) {
+	a.op(opCODESIZE).push(0).push(0).op(opCODECOPY)
+	for i, b := range header {
+		a.push(uint64(b)).push(uint64(i)).op(opMSTORE8)
+	}
+}
+
+// emitCreate: CREATE with the image (init header of the child) as init code.
+func emitCreate(a *asm, val int, id int) {
+	emitImageToMemory(a, initHeader(id))
+	a.op(opCODESIZE).push(0).push(uint64(val)).op(opCREATE)
+	a.op(opPOP) // the new address or 0 (the tracer reads it from the stack of this POP)
 }
 
 func emitBody(a *asm, n *Node) {
@@ -150,20 +246,47 @@ func emitBody(a *asm, n *Node) {
 			a.push(uint64(it.Val)).pushBytes(slotKey(it.Slot).Big().Bytes()).op(opSSTORE)
 		case "log":
 			a.push(0).push(0).op(opLOG0)
+		case "collide":
+			emitCreate(a, it.Val, 0) // (refused before the init code runs)
 		case "call":
 			c := it.Child
-			emitCall(a, c.Kind, addrOf[c.To], c.Val, c.ID, c.gas)
+			if c.Kind == "create" {
+				emitCreate(a, c.Val, c.ID)
+			} else {
+				emitCall(a, c.Kind, addrOf[c.To], c.Val, c.ID, c.gas)
+			}
 		default:
 			panic("unknown item " + it.Op)
 		}
 	}
 	switch n.End {
 	case "ok", "":
-		a.op(opSTOP)
+		if n.Kind == "create" && n.Flavor == "max" { // the longest code the platform stores (nobody calls it: see maxFlavour)
+			a.push(maxCodeSize).push(0).op(opRETURN)
+		} else if n.Kind == "create" { // the init code returns the image: the new contract is one more dispatcher
+			emitImageToMemory(a, runtimeHeader())
+			a.op(opCODESIZE).push(0).op(opRETURN)
+		} else {
+			a.op(opSTOP)
+		}
 	case "revert":
 		a.push(0).push(0).op(opREVERT)
 	case "suicide":
 		a.pushBytes(addrOf[n.Benef].Bytes()).op(opSELFDESTRUCT)
+	case "toobig": // one byte more than the platform stores
+		a.push(maxCodeSize + 1).push(0).op(opRETURN)
+	case "nodeposit":
+		// burn the gas down below noDepositGas (read-only calls to the modexp precompile whose length header asks for
+		// more gas than there is: all the gas passed on - 63/64 - is gone, nothing else happens), then return code
+		// whose deposit costs more than that
+		loop, done := fmt.Sprintf("nd%d_loop", n.ID), fmt.Sprintf("nd%d_done", n.ID)
+		hdr := make([]byte, 32)
+		hdr[0] = 0x80
+		a.pushBytes(hdr).push(0).op(opMSTORE)
+		a.dest(loop).push(noDepositGas).op(opGAS).op(opLT).pushLabel(done).op(opJUMPI)
+		a.push(0).push(0).push(96).push(0).push(5).push4(0xffffffff).op(opSTATICCALL).op(opPOP)
+		a.pushLabel(loop).op(opJUMP)
+		a.dest(done).push(noDepositLen).push(0).op(opRETURN)
 	case "fail":
 		switch n.Flavor {
 		case "invalid":
@@ -182,6 +305,8 @@ func emitBody(a *asm, n *Node) {
 			a.pushBytes(addrOf["U"].Bytes()).op(opSELFDESTRUCT)
 		case "wp_call":
 			emitCall(a, "call", addrOf["B"], 1, 0, 30000)
+		case "wp_create":
+			a.push(0).push(0).push(0).op(opCREATE)
 		default:
 			panic("unknown failure flavour " + n.Flavor)
 		}
@@ -191,11 +316,27 @@ func emitBody(a *asm, n *Node) {
 	}
 }
 
-// compile builds the one code image every contract of the universe holds: a dispatcher on the first byte of the
-// call data (the node id) followed by the body of every node of the tree.
+// maxFlavour: a creation that succeeds may, instead of the image, return code of exactly the maximal size - when no
+// frame of the tree runs the code of the new contract.
+func maxFlavour(root *Node, choose func(*Node) bool) {
+	runs := map[string]bool{}
+	root.walk(func(n *Node) {
+		if n.Kind != "create" {
+			runs[n.To] = true
+		}
+	})
+	root.walk(func(n *Node) {
+		if n.Kind == "create" && n.End == "ok" && !runs[n.To] && choose(n) {
+			n.Flavor = "max"
+		}
+	})
+}
+
+// compile builds the one code image every contract of the universe holds: the header (node id from the first byte
+// of the call data), a dispatcher on the id, the body of every node of the tree.
 func compile(root *Node) []byte {
 	a := newAsm()
-	a.push(0).op(opCALLDATALOAD).push(0).op(opBYTE) // id
+	a.op(runtimeHeader()...)
 	root.walk(func(n *Node) {
 		a.op(opDUP1).push(uint64(n.ID)).op(opEQ).pushLabel(fmt.Sprintf("n%d", n.ID)).op(opJUMPI)
 	})
@@ -207,6 +348,17 @@ func compile(root *Node) []byte {
 	return a.bytes()
 }
 
+// build: plan and image of a tree (the plan needs the length of the image, which does not depend on the plan)
+func build(root *Node) (image []byte, ample uint64) {
+	L := uint64(len(compile(root)))
+	ample = root.plan(L)
+	image = compile(root)
+	if uint64(len(image)) != L {
+		panic(fmt.Sprintf("compile: layout changed between the passes (%d / %d)", L, len(image)))
+	}
+	return image, ample
+}
+
 // actions lists the tree in execution order in the vocabulary of the spec (what the generator prescribed).
 func (n *Node) actions(out *[]map[string]interface{}) {
 	*out = append(*out, map[string]interface{}{"t": "enter", "k": n.Kind, "to": n.To, "v": n.Val, "s": ""})
@@ -216,6 +368,8 @@ func (n *Node) actions(out *[]map[string]interface{}) {
 			*out = append(*out, map[string]interface{}{"t": "sstore", "k": "", "to": "", "v": it.Val, "s": it.Slot})
 		case "log":
 			*out = append(*out, map[string]interface{}{"t": "log", "k": "", "to": "", "v": 0, "s": ""})
+		case "collide": // the creation is issued, no frame ever runs
+			*out = append(*out, map[string]interface{}{"t": "enter", "k": "create", "to": it.Slot, "v": it.Val, "s": ""})
 		case "call":
 			it.Child.actions(out)
 		}
